@@ -10,7 +10,8 @@ R32.1 const_relations in parol::analysis::k_tuple (all values are read from the 
       * EPS == TerminalIndex::MAX, INVALID == MAX-1, and the built-in token constants re-declared in k_tuple equal
         the runtime's constants of the same name; INVALID equals the runtime's INVALID_TOKEN.
 R32.2 get/set agreement: both address bit offset i * bits() with the element mask mask() (see get_set_agree).
-The shifting arithmetic of k_concat / of (values x positions) is NOT decided.
+R32.3 k_concat: the mask count equals the length increment, the placement offset equals the old length.
+Other shifting arithmetic (of, values x positions) is NOT decided.
 """
 from ..dataflow import operand_term, raw_operand_place
 from ..facts import AnchorMissing
@@ -137,6 +138,7 @@ def check(ctx):
               "EPS truncated to any width is the all-ones pattern (the reason new() reserves max_terminal_index + 1)",
               "EPS truncated to the element width is not all ones", nontrivial=False)
     get_set_agree(ctx, facts)
+    k_concat_agreement(ctx, facts)
 
 
 # ------------------------------------------------------------------------------------------------------------------ R32.2
@@ -218,3 +220,52 @@ def get_set_agree(ctx, facts):
               "get masks with mask(); set masks the value with mask() and clears mask() << i*bits()",
               "getter and setter do not use the same element mask (get: %s, set: %s / shifted %s)"
               % (masks["get"], masks["set"], shifted), where(s))
+
+
+def k_concat_agreement(ctx, facts):
+    """R32.3 (added after seed C32-b) k_concat keeps exactly the terminals it counts: the mask applied to the appended value keeps
+    X elements (`!(!0 << X * bits)`), the value is placed behind P elements (`<< P * bits`), and the new length is P + X with the
+    same X and P.  A mask that is wider than the count leaves terminals above the recorded length in the 128-bit word; get/iter do
+    not see them but the derived Eq/Hash of the packed value do - equal sequences compare unequal."""
+    from .c31 import _sh
+    T = "parol::analysis::k_tuple::Terminals::"
+    b = facts.body(T + "k_concat")
+    mask_counts, place_counts = [], []
+    for bi, si, p, rv, line, mac in b.assigns():
+        if rv[0] == "bin" and rv[1].replace("Unchecked", "") == "Shl":
+            left = _sh(b, rv[2])
+            amt = _sh(b, rv[3])
+            # amount = count * bits
+            cnt = None
+            if amt[0] == "bin" and amt[1].startswith("Mul"):
+                for x in (amt[2], amt[3]):
+                    if x[0] == "var" and b.local_ty(x[2]) == "usize":
+                        cnt = x
+            is_all_ones = left[0] == "const" or (left[0] == "un") or (left[0] == "bin" and False)
+            if left[0] == "const" or (left[0] == "unknown"):
+                mask_counts.append((cnt, line))
+            else:
+                place_counts.append((cnt, line))
+    idx = [c for c in b.calls() if (c.path or "").endswith("Terminals::set_next_index")]
+    new_len = None
+    if len(idx) == 1:
+        t = _sh(b, idx[0].args[1])
+        if t[0] == "var":
+            from ..dataflow import single_def
+            dd = single_def(b, t[2])
+            if dd and dd[0] == "assign" and dd[3][0] in ("cast", "use"):
+                t = _sh(b, dd[3][2] if dd[3][0] == "cast" else dd[3][1])
+        if t[0] == "bin" and t[1].startswith("Add") and t[2][0] == "var" and t[3][0] == "var":
+            new_len = (t[2][2], t[3][2])
+    ok = len(mask_counts) == 1 and len(place_counts) == 1 and new_len is not None and mask_counts[0][0] is not None \
+        and place_counts[0][0] is not None
+    if ok:
+        X, P = mask_counts[0][0][2], place_counts[0][0][2]
+        ok = {X, P} == set(new_len) and X != P
+    ctx.check(ok, "R32.3", "k_concat|mask-count-equals-length-increment",
+              "the mask keeps `%s` elements, they are placed behind `%s` elements, the new length is their sum"
+              % (b.local_name(mask_counts[0][0][2]) if ok else "?", b.local_name(place_counts[0][0][2]) if ok else "?"),
+              "k_concat masks the appended value with a count (%s) that is not the count it adds to the length (%s): terminals beyond the "
+              "recorded length stay in the packed word, equal sequences compare / hash differently"
+              % ([b.local_name(c[2]) if c else None for c, _l in mask_counts], [b.local_name(x) for x in new_len] if new_len else None),
+              where(b, mask_counts[0][1] if mask_counts else None))
